@@ -220,8 +220,29 @@ def run_chain(chain):
     return rounds
 
 
+def run_pairs(case, log_every, counter):
+    """first round (no user data) + every second round of C15's quantifier, the previous
+    assignment shipped through the real user-data encoding with generation 1"""
+    r1 = run_sticky(case, with_log=False)
+    seconds = []
+    if "exc" not in r1:
+        for kind, members2, arg in S.second_rounds(case):
+            c2 = {"ppt": case["ppt"], "members": members2,
+                  "claims": claims_from(r1["out"], members2, 1)}
+            counter[0] += 1
+            seconds.append(run_sticky(c2, with_log=(counter[0] % log_every == 0)))
+    return {"first": r1, "second": seconds}
+
+
 def do_job(job):
     kind = job["kind"]
+    if kind == "pairs":
+        out = []
+        counter = [job.get("offset", 0)]
+        for (T, M, li) in job["blocks"]:
+            for case in S.block_cases(T, M, li):
+                out.append(run_pairs(case, job.get("log_every", 50), counter))
+        return out
     if kind == "blocks":
         out = []
         for (T, M, li) in job["blocks"]:
